@@ -184,7 +184,7 @@ def queries(tier):
     cfgs = [("m2b4", 2, 4), ("m2b3", 2, 3)] if quick else [("m2b4", 2, 4), ("m2b3", 2, 3), ("m3b6", 3, 6)]
     for tag, mps, buf in cfgs:
         f = (lambda mps=mps, buf=buf: IsoOutHarness(mps, buf))
-        K = 20 if quick else 24
+        K = 20 if quick else 22
         # a whole-packet drop needs a full buffer: within K only reachable with the small buffer (m2b3)
         covers = None if buf < 2 * mps else [c for c in IsoOutHarness(mps, buf)._covers if c != "dropped_whole"]
         qs.append(Query(f"bmc_{tag}", f, K, timeout=900, covers=covers,
